@@ -1356,7 +1356,14 @@ def stream_proxy(ctx, n):
                 want = addressed and same_sig
                 ctx.stat('proxy:%s' % ('deliver' if want else ('wrong-signature' if addressed else 'other-signal')))
                 if bool(calls) != want or len(calls) > 1:
-                    key = 'proxy-signature-gate' if addressed else 'proxy-wrong-signal-delivered'
+                    if not addressed:
+                        key = 'proxy-wrong-signal-delivered'
+                    elif want and not calls:
+                        key = 'proxy-matching-signal-not-delivered'
+                    elif len(calls) > 1:
+                        key = 'invoked-twice'
+                    else:
+                        key = 'proxy-signature-gate'
                     ctx.violation(key, 'proxy subscription for signal M(%r): callback %s for a signal with signature %r'
                                   % (decl, 'called' if calls else 'not called', spec['signature']), inp=inp,
                                   observed=calls, expected='called once with the body' if want else 'not called')
@@ -1444,6 +1451,26 @@ def run(ctx):
 
     # directed exemplars, both as received (parsed) and as constructed objects
     stream_pairs(ctx, [(kw, spec, True) for kw, spec in DIRECTED] + [(kw, spec, False) for kw, spec in DIRECTED], 'directed')
+
+    # grids (complete over the small pools): every namespace candidate x every path, every argNpath / argN
+    # candidate x every string argument - the near-miss cases the property names
+    grid = []
+    all_ns = sorted(set(x for p in PATHS for x in ns_candidates(p)))
+    for p in PATHS:
+        for ns in all_ns:
+            grid.append(({'path_namespace': ns}, SIG(path=p), True))
+    all_ap = sorted(set(x for a in STRVALS for x in argpath_candidates(a)) | set(STRVALS))
+    for a in STRVALS:
+        for v in all_ap:
+            grid.append(({'arg_paths': [[0, v]]}, SIG(signature='s', body=[a]), True))
+        for v in STRVALS:
+            grid.append(({'args': [[0, v]]}, SIG(signature='s', body=[a]), True))
+    for a in PATHS:
+        for v in all_ap:
+            if v.startswith(a[:2]):
+                grid.append(({'arg_paths': [[0, v]]}, SIG(signature='o', body=[a]), True))
+    ctx.stat('grid-cases', len(grid))
+    stream_pairs(ctx, grid, 'grid')
 
     # single-key sweep: for every constraint key, satisfied and near-miss, alone
     single = []
